@@ -87,6 +87,7 @@ type Exec struct {
 	lastNow      *Term
 	choiceVals   map[string]uint64
 	scratch      bool
+	witnesses    []*witness
 	pendingNotes []oblNote
 	bounds       map[int]rng
 	rngMemo      map[int]rng
@@ -127,6 +128,21 @@ func (ex *Exec) addPC(c *Term) {
 	}
 	ex.pc = append(ex.pc, c)
 	ex.learn(c)
+	ex.filterWitnesses(c)
+}
+
+// filterWitnesses keeps the cached models that still satisfy the path condition extended by c.
+func (ex *Exec) filterWitnesses(c *Term) {
+	if len(ex.witnesses) == 0 {
+		return
+	}
+	kept := ex.witnesses[:0]
+	for _, w := range ex.witnesses {
+		if v, ok := w.holdsIn(c); ok && v {
+			kept = append(kept, w)
+		}
+	}
+	ex.witnesses = kept
 }
 
 func (ex *Exec) known(c *Term) (val bool, ok bool) {
@@ -172,7 +188,8 @@ func (ex *Exec) feasible(c *Term) bool {
 	if v, ok := ex.known(c); ok {
 		return v
 	}
-	k := pcKey(ex.pc, c)
+	pc := ex.slice(c)
+	k := pcKey(pc, c)
 	qcacheMu.Lock()
 	r, ok := qcache[k]
 	qcacheMu.Unlock()
@@ -183,7 +200,7 @@ func (ex *Exec) feasible(c *Term) bool {
 		st.mu.Unlock()
 		return r != Unsat
 	}
-	r, _ = ex.solver.Check(ex.pc, c, false)
+	r, _ = ex.solver.Check(pc, c, false)
 	st.mu.Lock()
 	st.Feas++
 	switch r {
@@ -321,7 +338,8 @@ func (ex *Exec) decideObligation(nc *Term) (Res, *Model, string) {
 			return Unsat, nil, "facts"
 		}
 	}
-	k := pcKey(ex.pc, nc)
+	pc := ex.slice(nc)
+	k := pcKey(pc, nc)
 	qcacheMu.Lock()
 	r, ok := qcache[k]
 	qcacheMu.Unlock()
@@ -331,13 +349,24 @@ func (ex *Exec) decideObligation(nc *Term) (Res, *Model, string) {
 		st.mu.Unlock()
 		return Unsat, nil, "cache"
 	}
-	r, m := ex.solver.Check(ex.pc, nc, true)
+	ex.solver.expectUnsat = true
+	r, _ = ex.solver.Check(pc, nc, false)
+	ex.solver.expectUnsat = false
 	who := ex.solver.lastWho
+	var m *Model
+	if r == Sat {
+		// counterexample: get a model of the whole path condition (the slice leaves unrelated inputs unconstrained)
+		var r2 Res
+		r2, m = ex.solver.Check(ex.pc, nc, true)
+		if r2 != Sat {
+			m = nil
+		}
+	}
 	st.mu.Lock()
 	st.Assertion++
 	st.mu.Unlock()
 	if r != Unknown && ex.eng.tier == "thorough" && ex.eng.crossCheck {
-		r2, who2 := Portfolio(ex.pc, nc, 300*time.Second, true, st)
+		r2, who2 := Portfolio(pc, nc, 300*time.Second, true, st)
 		if r2 != Unknown && r2 != r {
 			fmt.Fprintf(os.Stderr, "SOLVER DISAGREEMENT %s=%v portfolio(%s)=%v\n", who, r, who2, r2)
 			r = Unknown
@@ -1861,4 +1890,46 @@ func (ex *Exec) unExtractPair(a, b *Term, signed bool) (*Term, *Term) {
 		return la, lb
 	}
 	return a, b
+}
+
+// slice returns the conjuncts of the path condition that share symbols (transitively) with c.
+// The rest is satisfiable on its own (the path condition is feasible) and cannot influence c.
+func (ex *Exec) slice(c *Term) []*Term {
+	if ex.eng.noSlice {
+		return ex.pc
+	}
+	syms := map[int]struct{}{}
+	for k := range c.Vars() {
+		syms[k] = struct{}{}
+	}
+	in := make([]bool, len(ex.pc))
+	for changed := true; changed; {
+		changed = false
+		for i, t := range ex.pc {
+			if in[i] {
+				continue
+			}
+			hit := false
+			for k := range t.Vars() {
+				if _, ok := syms[k]; ok {
+					hit = true
+					break
+				}
+			}
+			if hit {
+				in[i] = true
+				changed = true
+				for k := range t.Vars() {
+					syms[k] = struct{}{}
+				}
+			}
+		}
+	}
+	out := make([]*Term, 0, len(ex.pc))
+	for i, t := range ex.pc {
+		if in[i] {
+			out = append(out, t)
+		}
+	}
+	return out
 }
